@@ -215,7 +215,7 @@ STUBS = [
     'edb.schema.modules.DEFAULT_MODULE_ALIAS, Module -> constants',
     'edb.server.config.lookup -> defaults for force_database_error/__internal_testmode/default_transaction_*',
     'compiler.ddl.compile_and_apply_ddl_stmt -> derives a new tagged schema and calls the real Transaction.update_schema (or rejects)',
-    'compiler._compile_ql_query -> records what the compiler sees (schema tag, aliases, session config)',
+    'compiler._compile_ql_query -> records what the compiler sees (user schema tag, global schema tag, aliases, session config)',
     'compiler._compile_ql_config_op -> calls the real Transaction.update_session_config',
     'compiler.status.get_status, pgsql.common.quote_ident, compiler._get_schema_version, _extract_extensions, ddl.produce_feature_used_metrics, sertypes.NULL_TYPE_ID -> trivial',
     'edgeql.parse_block / Source -> hand-built qlast statement lists (no EdgeQL text)',
@@ -270,6 +270,7 @@ def load(patches=None):
     ddl.produce_feature_used_metrics = lambda *a: None
     compiler._get_schema_version = lambda s: uuid.UUID(int=1)
     compiler._extract_extensions = lambda ctx, s: ([], [])
+    compiler._extract_roles = lambda gs: ()
     edgeql.parse_block = lambda src: src.stmts
     edgeql.Source = Source
     edgeql.NormalizedSource = type('NormalizedSource', (Source,), {})
@@ -279,9 +280,9 @@ def load(patches=None):
     class FakeDDL(qlast.DDLCommand):
         pass
 
-    def mkddl(op, tag, reject=False):
+    def mkddl(op, tag, reject=False, is_global=False):
         d = FakeDDL()
-        d.__dict__.update(op=op, tag=tag, reject=reject)
+        d.__dict__.update(op=op, tag=tag, reject=reject, is_global=is_global)
         return d
 
     class FakeQuery(qlast.Command):
@@ -301,6 +302,22 @@ def load(patches=None):
             raise errors.SchemaDefinitionError(f'injected: DDL {ql.op} {ql.tag} rejected by the compiler')
         tx = ctx.state.current_tx()
         sch = tx.get_schema(ctx.compiler_state.std_schema)
+        if ql.__dict__.get('is_global'):
+            # a DDL on a global object (CREATE / DROP ROLE): changes the global schema only
+            if ql.op == 'add':
+                if ql.tag in sch.glob.modules:
+                    raise errors.SchemaError(f'role {ql.tag} already exists')
+                roles = sch.glob.modules | {ql.tag}
+            else:
+                if ql.tag not in sch.glob.modules:
+                    raise errors.InvalidReferenceError(f'role {ql.tag} does not exist')
+                roles = sch.glob.modules - {ql.tag}
+            new_glob = FlatSchema(sch.glob.tag + ('+' if ql.op == 'add' else '-') + ql.tag, roles)
+            tx.update_schema(ChainedSchema(sch.std, sch.user, new_glob))
+            implicit = tx.is_implicit()
+            return dbstate.DDLQuery(sql=b'ddl', user_schema=sch.user if implicit else None,
+                                    global_schema=new_glob if implicit else None,
+                                    feature_used_metrics=None)
         if ql.op == 'add':
             if ql.tag in sch.user.modules:
                 raise errors.SchemaError(f'module {ql.tag} already exists')
@@ -318,7 +335,8 @@ def load(patches=None):
 
     def fake_query(ctx, ql, source=None, script_info=None):
         tx = ctx.state.current_tx()
-        observed[ctx.cache_key.int].append((tx.get_user_schema().tag, tx.get_modaliases(), tx.get_session_config()))
+        observed[ctx.cache_key.int].append((tx.get_user_schema().tag, tx.get_modaliases(), tx.get_session_config(),
+                                            tx.get_global_schema().tag))
         return dbstate.NullQuery()
 
     compiler._compile_ql_query = fake_query
